@@ -52,6 +52,13 @@ Further streams (added after the red-team rounds):
   the upsert issued after creation is a pair of crash points and a correspondence mismatch (`meta rows`: the model writes the problem
   rows once), the file must keep its first description.
 
+* red-team round 6 (rule 9, configuration changed between construction and use): the store object of the problem is attached after /
+  before the algorithm object (whose Evaluator builds the Job) is constructed, exchanged for another file before the run starts, or
+  exchanged between two batches of ONE algorithm object; the writer is killed at every point of both batches and BOTH files are read
+  by a fresh process.  `jobret` = Job.evaluate has returned for an individual it evaluated, reported from outside the store object
+  together with the store attached to the problem at that moment: model step SReturn (legal only after a committed statement for the
+  id in THAT file), oracle clause `evaluated individual missing`.
+
 Nothing in /repo is changed: the crash points are injected by the proxy and by the scenario's objective.
 """
 import json
@@ -153,7 +160,7 @@ def server_main():
 
     CTL = {"fd": None, "armed": False, "k": 0, "crash_at": None, "obj_calls": 0, "obj_crash": None, "conns": 0,
            "lock": threading.Lock(), "jitter": 0.0, "journal_modes": set(), "fail_at": frozenset(), "payload": 0,
-           "busy": None, "ext": None, "sync_no": 0}
+           "busy": None, "ext": None, "sync_no": 0, "dbs": [], "cur": None}
     UPSERT = "INSERT INTO individuals"
     import re
     POP = re.compile(r'"population_id": (-?\d+)')
@@ -263,7 +270,7 @@ def server_main():
                     if not self._conn._checked:
                         mode = self._conn._real.execute("PRAGMA journal_mode").fetchone()[0]      # (needs a SHARED lock itself)
                         self._conn._checked = True
-                        emit({"e": "journal", "c": self._conn._cid, "mode": mode})
+                        emit({"e": "journal", "c": self._conn._cid, "mode": mode, "db": self._conn._db})
                     r = self._real.execute(sql, params)
                 except sqlite3.OperationalError:
                     note_refused("execute", params[0])
@@ -271,7 +278,7 @@ def server_main():
                 self._conn._dirty = True
                 self._conn._ids.append(params[0])
                 pm = POP.search(params[1][:4000]) if isinstance(params[1], str) else None
-                emit({"e": "exec", "c": self._conn._cid, "i": params[0], "p": int(pm.group(1)) if pm else None})
+                emit({"e": "exec", "c": self._conn._cid, "i": params[0], "p": int(pm.group(1)) if pm else None, "db": self._conn._db})
                 boundary("after execute")
                 return r
             if CTL["armed"] and not sql.lstrip().upper().startswith(("PRAGMA", "SELECT")):
@@ -284,7 +291,7 @@ def server_main():
             boundary("before statement")
             r = call()
             self._conn._dirty = True
-            emit({"e": "stmt", "c": self._conn._cid, "sql": text})
+            emit({"e": "stmt", "c": self._conn._cid, "sql": text, "db": self._conn._db})
             boundary("after statement")
             return r
 
@@ -302,7 +309,7 @@ def server_main():
                 for row in rows:
                     self._conn._ids.append(row[0])
                     pm = POP.search(row[1][:4000]) if isinstance(row[1], str) else None
-                    emit({"e": "exec", "c": self._conn._cid, "i": row[0], "p": int(pm.group(1)) if pm else None, "many": True})
+                    emit({"e": "exec", "c": self._conn._cid, "i": row[0], "p": int(pm.group(1)) if pm else None, "many": True, "db": self._conn._db})
                 emit({"e": "many", "c": self._conn._cid, "n": len(rows)})
                 boundary("after execute")
                 return r
@@ -314,8 +321,9 @@ def server_main():
             return getattr(self._real, name)
 
     class Conn:
-        def __init__(self, real):
+        def __init__(self, real, db=0):
             self._real = real
+            self._db = db                   # which of the run's store files this connection writes (red-team round 6)
             self._dirty = False
             self._checked = False
             self._ids = []
@@ -337,14 +345,14 @@ def server_main():
 
         def commit(self):
             if CTL["armed"] and self._dirty:
-                emit({"e": "commit_begin", "c": self._cid})
+                emit({"e": "commit_begin", "c": self._cid, "db": self._db})
                 try:
                     r = self._real.commit()
                 except sqlite3.OperationalError:
                     note_refused("commit", self._ids[-1] if self._ids else None)
                     raise
                 self._dirty = False
-                emit({"e": "commit", "c": self._cid})
+                emit({"e": "commit", "c": self._cid, "db": self._db})
                 boundary("after commit")
                 return r
             return self._real.commit()
@@ -357,7 +365,8 @@ def server_main():
     def connect(*a, **kw):
         # artap's default busy timeout is 5 s; nothing legitimately waits that long here (external-lock scenarios: shorter still)
         kw.setdefault("timeout", CTL["busy"] or 1.0)
-        return Conn(real_connect(*a, **kw))
+        path = a[0] if a else kw.get("database")
+        return Conn(real_connect(*a, **kw), CTL["dbs"].index(path) if path in CTL["dbs"] else 0)
 
     # artap prints (e.g. "database is locked") on stdout: keep the protocol on its own descriptor
     proto = os.fdopen(os.dup(1), "w")
@@ -436,52 +445,98 @@ def server_main():
         return v
 
     VectorAndNumbers.gen_vector = staticmethod(gen_vector)
+    # red-team round 6: the property's anchor is Job.evaluate - "writes the individual to the store immediately after a successful
+    # evaluation".  Reported from OUTSIDE the store object: Job.evaluate has returned for an individual it evaluated in this call
+    # (`fresh`: it was not skipped as already evaluated) while store number `db` was the one attached to the problem.  The wrappers
+    # around the store's own methods (`ret`) see nothing when Job talks to another store object than problem.data_store.
+    from artap.job import Job
+    real_job_evaluate = Job.evaluate
+
+    def job_evaluate(self, individual):
+        before = individual.state
+        r = real_job_evaluate(self, individual)
+        if CTL["armed"]:
+            emit({"e": "jobret", "i": individual.id, "db": CTL["cur"], "fresh": before != individual.State.EVALUATED})
+        return r
+
+    Job.evaluate = job_evaluate
 
     def writer(req):
         sc = req["scenario"]
         random.seed(sc["seed"])
         np.random.seed(sc["seed"])
         problem = (P if sc["alg"] != "sweep1" else P1)()
-        if sc["alg"].startswith("sweep"):
-            rs = random.Random(sc["seed"])
-            gen = CustomGenerator(problem.parameters)
-            gen.init([[rs.choice([-2.0, -1.0, 0.0, 0.5, 1.0, 2.5]), rs.uniform(-3, 3)] for _ in range(sc["n"])])
-            alg = SweepAlgorithm(problem, generator=gen)
+        CTL["dbs"] = [req["db"], req["db"] + ".b"]
+        points = lambda seed, n: (lambda rs: [[rs.choice([-2.0, -1.0, 0.0, 0.5, 1.0, 2.5]), rs.uniform(-3, 3)] for _ in range(n)])(random.Random(seed))
+        built = {}
+
+        def build():
+            if sc["alg"].startswith("sweep"):
+                gen = built["gen"] = CustomGenerator(problem.parameters)
+                gen.init(points(sc["seed"], sc["n"]))
+                alg = SweepAlgorithm(problem, generator=gen)
+            else:
+                alg = (NSGAII if sc["alg"] == "nsga2" else EpsMOEA)(problem)
+                alg.options['max_population_number'] = sc["g"]
+                alg.options['max_population_size'] = sc["n"]
+            alg.options['max_processes'] = sc.get("procs", 1)
+            return alg
+
+        def attach(idx):
+            """creates store number idx of this run (file CTL["dbs"][idx]; default: mode "write", thread_safe=True), makes it the
+            problem's store and puts the reporting wrappers around its two methods.  Not armed while the file is being created:
+            the property starts when the store has been created (`attached` is reported then)"""
+            was, CTL["armed"] = CTL["armed"], False
+            store = SqliteDataStore(problem, database_name=CTL["dbs"][idx])
+            problem.data_store = store
+            real_ind, real_all = store.sync_individual, store.sync_all
+
+            # which object is handed to the store: one created by this process, or one rebuilt from a row at start-up
+            def sync_individual(individual):
+                ext = CTL["ext"]
+                if ext is not None:
+                    with CTL["lock"]:
+                        n = CTL["sync_no"]
+                        CTL["sync_no"] += 1
+                    if n == ext["at"]:                   # (not under CTL["lock"]: another worker may need it to finish its commit)
+                        start_locker(CTL["dbs"][idx])    # another process locks the file while THIS individual is synchronised
+                emit({"e": "plan", "objs": [[individual.id, isinstance(individual.state, str)]], "db": idx})
+                r = real_ind(individual)
+                emit({"e": "ret", "i": individual.id, "db": idx})
+                return r
+
+            def sync_all():
+                if sc.get("resync"):            # the caller has changed every recorded individual since Job.evaluate stored it (as an
+                    for i in problem.individuals:       # algorithm that numbers its populations does): every statement is a real UPDATE
+                        i.population_id = 0
+                ids = [i.id for i in problem.individuals]
+                emit({"e": "plan", "objs": [[i.id, isinstance(i.state, str)] for i in problem.individuals], "db": idx})
+                r = real_all()
+                for i in ids:
+                    emit({"e": "ret", "i": i, "db": idx})
+                return r
+
+            store.sync_individual, store.sync_all = sync_individual, sync_all
+            CTL["cur"] = idx
+            CTL["armed"] = was
+            emit({"e": "attached", "db": idx})
+            return store
+
+        # red-team round 6 (lessons rule 9: configuration changed between construction and use).  `order`: the algorithm object - and
+        # with it its Evaluator and the Evaluator's Job - is built BEFORE the store is attached to the problem ("alg_first", what every
+        # scenario of this check has always done) or after it ("store_first", what artap's tests and examples do);
+        # `swap` = "before_run": a store_first run whose store is exchanged for another file before the run starts (the first file
+        # stays as created: no individuals);  `swap` = {"n": k, "seed": s}: after the run has finished the store is exchanged for
+        # another file and the SAME algorithm object runs a second batch.  The store the property speaks of is the one attached to
+        # the problem when the evaluation finishes.
+        if sc.get("order", "alg_first") == "store_first":
+            store = attach(0)
+            alg = build()
+            if sc.get("swap") == "before_run":
+                store = attach(1)
         else:
-            alg = (NSGAII if sc["alg"] == "nsga2" else EpsMOEA)(problem)
-            alg.options['max_population_number'] = sc["g"]
-            alg.options['max_population_size'] = sc["n"]
-        alg.options['max_processes'] = sc.get("procs", 1)
-        store = SqliteDataStore(problem, database_name=req["db"])          # default: mode "write", thread_safe=True
-        problem.data_store = store
-        real_ind, real_all = store.sync_individual, store.sync_all
-
-        # which object is handed to the store: one created by this process, or one rebuilt from a row at start-up
-        def sync_individual(individual):
-            ext = CTL["ext"]
-            if ext is not None:
-                with CTL["lock"]:
-                    n = CTL["sync_no"]
-                    CTL["sync_no"] += 1
-                if n == ext["at"]:                   # (not under CTL["lock"]: another worker may need it to finish its commit)
-                    start_locker(req["db"])          # another process locks the file while THIS individual is synchronised
-            emit({"e": "plan", "objs": [[individual.id, isinstance(individual.state, str)]]})
-            r = real_ind(individual)
-            emit({"e": "ret", "i": individual.id})
-            return r
-
-        def sync_all():
-            if sc.get("resync"):            # the caller has changed every recorded individual since Job.evaluate stored it (as an
-                for i in problem.individuals:       # algorithm that numbers its populations does): every statement is a real UPDATE
-                    i.population_id = 0
-            ids = [i.id for i in problem.individuals]
-            emit({"e": "plan", "objs": [[i.id, isinstance(i.state, str)] for i in problem.individuals]})
-            r = real_all()
-            for i in ids:
-                emit({"e": "ret", "i": i})
-            return r
-
-        store.sync_individual, store.sync_all = sync_individual, sync_all
+            alg = build()
+            store = attach(0)
         # the problem description changes AFTER the store has been created (red-team round 3): what the constructors of
         # GradientEvaluator / WorstCaseEvaluator do (an algorithm built with evaluator_type GRADIENT / WORST_CASE after the
         # store was attached), or the user edits parameters / costs / name in place.  The unchanged store writes main /
@@ -516,6 +571,11 @@ def server_main():
         CTL["armed"] = True                 # the store has been created: crash points start here
         emit({"e": "armed"})
         alg.run()
+        if isinstance(sc.get("swap"), dict):        # second batch of the same algorithm object, into another file
+            store = attach(1)
+            if "gen" in built:
+                built["gen"].init(points(sc["swap"]["seed"], sc["swap"]["n"]))
+            alg.run()
         if sc.get("resync"):                # what every population algorithm does next: set population_id, synchronise again (UPDATE)
             for individual in list(problem.individuals):
                 individual.population_id = 12       # (another number of digits: the image moves inside its pages)
@@ -638,7 +698,7 @@ def server_main():
         req = json.loads(line)
         if req.get("cmd") == "quit":
             break
-        for suffix in ("", "-journal"):
+        for suffix in ("", "-journal", ".b", ".b-journal"):
             try:
                 os.remove(req["db"] + suffix)
             except OSError:
@@ -661,7 +721,11 @@ def server_main():
         except OSError:
             jbytes = None
         rd, _, _ = in_child(reader, req)
-        proto.write(json.dumps({"events": evs, "status": status, "read": rd[0] if rd else {"error": "reader died"},
+        rd_b = None                     # the second store file of the run, if the writer got as far as creating it
+        if any(e.get("e") == "attached" and e.get("db") == 1 for e in evs):
+            rd_b, _, _ = in_child(reader, dict(req, db=req["db"] + ".b"))
+            rd_b = rd_b[0] if rd_b else {"error": "reader died"}
+        proto.write(json.dumps({"events": evs, "status": status, "read": rd[0] if rd else {"error": "reader died"}, "read_b": rd_b,
                                 "writer_s": lived, "journal_bytes_at_death": jbytes}) + "\n")
         proto.flush()
 
@@ -715,6 +779,7 @@ def run(ctx):
     hist = {"scenarios": [], "crash_points": {"objective": 0, "before execute": 0, "after execute": 0, "after commit": 0, "sigkill": 0,
                                               "sigkill_commit": 0, "none": 0}, "exact": 0, "interval": 0, "rows_read": 0, "returned_ids": 0,
             "rows_in_flight_observed": 0, "hot_journal_left": 0, "journal_modes": {}, "writer_died_by": {}, "failed_attempts": 0,
+            "job_returns": 0, "store_exchanged": {"runs": 0, "killed_after_the_exchange": 0, "rows_in_second_file": 0},
             "crash_with_failed_attempt_before": 0, "crash_inside_retry_or_between_failure_and_success": 0, "big_row_kills": 0,
             "hot_journal_bytes_max": 0,
             "external_lock": {"runs": 0, "lock_taken": 0, "refused_attempts": 0, "longest_refusal_streak": 0, "by_kind": {},
@@ -726,9 +791,14 @@ def run(ctx):
             ctx.oracle_failures.append({"what": what, "input": dict({"scenario": sc, "crash": crash}, **kw),
                                         "match": {"kind": "crash", "alg": sc["alg"], "clause": clause}})
 
-    def to_case(sc, crash, res, exact):
-        """events -> model case, expected observation; applies the direct oracle"""
-        evs = res["events"]
+    STORE_EVENTS = ("plan", "exec", "commit_begin", "commit", "ret", "journal", "stmt")
+
+    def to_case(sc, crash, res, exact, dbi=0):
+        """events -> model case, expected observation; applies the direct oracle.  dbi: which of the run's store files is looked at
+        (red-team round 6: a run may have two, the second attached to the problem later); the statements, commits and returns of the
+        other file are no steps of this file's table"""
+        evs = [e for e in res["events"] if not (e.get("e") in STORE_EVENTS and e.get("db", 0) != dbi)]
+        job_done = {}                           # id -> vector: Job.evaluate has returned for it while THIS file's store was attached
         m = 1 if sc["alg"] == "sweep1" else 2
         designs, obj, sg, trace, started = [], [], [], [], {}
         begun, returned, plan = [], [], {}
@@ -811,6 +881,13 @@ def run(ctx):
                 trace.append("SReturn %s" % zl(e["i"]))
                 if e["i"] in mine and e["i"] in started:
                     ack[(session, e["i"])] = started[e["i"]]
+            elif k == "jobret":
+                # Job.evaluate has returned for an individual it evaluated: its synchronisation into the store attached to the
+                # problem has returned (job.py 44-50) - model: SReturn, legal only after a committed statement for this id
+                if e.get("fresh") and e.get("db") == dbi:
+                    trace.append("SReturn %s" % zl(e["i"]))
+                    job_done[e["i"]] = started.get(e["i"])
+                    hist["job_returns"] += 1
             elif k == "journal":
                 hist["journal_modes"][e["mode"]] = hist["journal_modes"].get(e["mode"], 0) + 1
                 if e["mode"].lower() in ("off", "memory"):
@@ -819,7 +896,7 @@ def run(ctx):
             elif k == "exception":
                 ctx.mismatches.append({"what": "writer raised %s" % e["what"], "correspondence": "writer", "case": {"scenario": sc, "crash": crash}})
         conns = sorted(set(begun))
-        rd = res["read"]
+        rd = res["read"] if dbi == 0 else res["read_b"]
         c = ("{| q_designs := %s; q_objective := %s; q_signed := %s; q_trace := %s; q_conns := %s |}" % (
             ll(designs, lambda d: pl(zl(d[0]), enc_list(d[1]))), ll(obj, lambda d: pl(enc_list(d[0]), enc_list(d[1]))),
             ll(sg, lambda d: pl(enc_list(d[0]), enc_val(d[1]))), ll(trace), ll(conns, str)))
@@ -843,6 +920,14 @@ def run(ctx):
                 if i not in ids:
                     fail("synchronisation of individual %d had returned before the crash, but the store has no row for it" % i, sc, crash,
                          "returned id missing", id=i, rows=ids)
+            # the property's own wording, observed outside the store object: an individual that Job.evaluate has finished (evaluated
+            # and handed to the store) is in the file of the store that was attached to the problem at that moment
+            for i in sorted(set(job_done) - set(returned)):
+                if i not in ids:
+                    fail("Job.evaluate had evaluated individual %d (vector %r) and returned before the crash while the store on file %d of "
+                         "the run was attached to the problem, but that file has no row for it (the store object that was told about it, "
+                         "if any, is not the problem's)" % (i, job_done[i] and [float.fromhex(t["f"]) if isinstance(t, dict) else t for t in job_done[i]],
+                                                            dbi), sc, crash, "evaluated individual missing", id=i, rows=ids, store_file=dbi)
             # every individual acknowledged in ANY session is still there with ITS OWN data: a later session re-synchronises the
             # individuals it rebuilt from the rows (same data) and writes NEW ids for the individuals it creates itself
             by_id = {r[0]: r for r in rd["rows"]}
@@ -894,7 +979,7 @@ def run(ctx):
             hist["rows_read"] += len(ids)
             hist["hot_journal_left"] += bool(rd.get("journal_left"))
         hist["returned_ids"] += len(set(returned))
-        return c, e, {"scenario": sc, "crash": crash, "events": len(evs), "rows": None if "error" in rd else [r[0] for r in rd["rows"]],
+        return c, e, {"scenario": sc, "crash": crash, "store_file": dbi, "events": len(evs), "rows": None if "error" in rd else [r[0] for r in rd["rows"]],
                       "returned": sorted(set(returned)), "in_flight_connections": conns}
 
     def shape_check(sc, evs):
@@ -1013,6 +1098,26 @@ def run(ctx):
         ({"alg": "sweep", "n": 2, "seed": 114, "procs": 1, "describe": "rename"}, "all", few),
         ({"alg": "sweep", "n": 2, "seed": 115, "procs": 1, "describe": "cost_edit",
           "pre": {"alg": "sweep", "n": 2, "seed": 116, "procs": 1, "describe": "gradient"}}, "all", few)]
+    # red-team round 6 (lessons rule 9: configuration changed between construction and use).  Which store object is problem.data_store
+    # changes between the construction of the algorithm object (its Evaluator builds the Job there) and the evaluations: every
+    # scenario above builds the algorithm first and attaches the store afterwards; here also the usual order (store first), a store
+    # exchanged for another file before the run starts, and a store exchanged between two batches of ONE algorithm object.  Killed
+    # at every objective call / boundary of both batches: every individual that Job.evaluate has finished is in the file of the store
+    # that was attached to the problem at that moment (both files are read by a fresh process; each is a model case of its own)
+    one = (1, 1)
+    scenarios += [
+        ({"alg": "sweep", "n": 3, "seed": 131, "procs": 1, "swap": {"n": 3, "seed": 132}}, "all", few),
+        ({"alg": "sweep1", "n": 2, "seed": 133, "procs": 1, "order": "store_first", "swap": "before_run"}, "all", one),
+        ({"alg": "nsga2", "n": 3, "g": 2, "seed": 134, "procs": 1, "order": "store_first", "swap": {"n": 3, "seed": 0}}, ctx.pick(12, "all"), one),
+        ({"alg": "sweep", "n": 4, "seed": 135, "procs": 2, "jitter": 0.002, "order": "store_first", "swap": {"n": 4, "seed": 136}}, ctx.pick(6, 40), one),
+        ({"alg": "sweep", "n": 3, "seed": 137, "procs": 1, "order": "store_first"}, ctx.pick(6, "all"), one)]
+    if ctx.thorough:
+        scenarios += [({"alg": "epsmoea", "n": 3, "g": 1, "seed": 138, "procs": 1, "swap": {"n": 3, "seed": 0}}, "all", few),
+                      ({"alg": "nsga2", "n": 3, "g": 2, "seed": 139, "procs": 1, "swap": {"n": 3, "seed": 0}}, "all", few),
+                      ({"alg": "epsmoea", "n": 3, "g": 1, "seed": 140, "procs": 1, "order": "store_first", "swap": "before_run"}, "all", few),
+                      ({"alg": "sweep", "n": 3, "seed": 141, "procs": 1, "order": "store_first", "fail": [1, 4],
+                        "swap": {"n": 2, "seed": 142}}, "all", few),
+                      ({"alg": "nsga2", "n": 4, "g": 2, "seed": 143, "procs": 2, "jitter": 0.002, "swap": {"n": 4, "seed": 0}}, 40, few)]
     if ctx.thorough:
         scenarios += [({"alg": "epsmoea", "n": 3, "g": 1, "seed": 121, "procs": 1, "describe": "gradient",
                         "pre": {"alg": "sweep", "n": 5, "seed": 122, "procs": 1, "crash": {"kind": "objective", "k": 2}}}, "all", few),
@@ -1113,9 +1218,19 @@ def run(ctx):
             cases.append(c)
             expected.append(e)
             meta.append(mt)
+            if sc.get("swap"):
+                hist["store_exchanged"]["runs"] += 1
+                if res.get("read_b") is not None:           # the second store of the run had been created when the writer died
+                    hist["store_exchanged"]["killed_after_the_exchange"] += crash["kind"] != "none"
+                    c2, e2, mt2 = to_case(sc, crash, res, exact, 1)
+                    cases.append(c2)
+                    expected.append(e2)
+                    meta.append(mt2)
+                    hist["store_exchanged"]["rows_in_second_file"] += len(mt2["rows"] or ())
             if not exact and mt["rows"] is not None and len(mt["in_flight_connections"]) > 0:
                 hist["rows_in_flight_observed"] += 1
             ctx.count((sc["alg"], sc["n"], sc.get("g"), sc["procs"], "pre" in sc, tuple(sc.get("fail", ())), sc.get("payload", 0), json.dumps(sc.get("lock")),
+                       sc.get("order"), json.dumps(sc.get("swap")),
                        crash["kind"], crash.get("k"), len(evs), tuple(mt["rows"] or ())),
                       nontrivial=crash["kind"] != "none")
             if sc["alg"] == "sweep1" and crash["kind"] == "boundary" and crash["k"] in (1, 2):
@@ -1133,7 +1248,9 @@ def run(ctx):
                 "commit) of rows / transactions larger than the page cache; runs in which ANOTHER PROCESS holds a read / write / exclusive "
                 "lock on the file during the synchronisation of a chosen individual until the writer has been refused 1..12 times in a row, "
                 "killed at every point before / inside / after that synchronisation; chains of killed / completed sessions continued into one "
-                "file and runs whose problem description changes after the store was created, killed at every point; a case is non-trivial "
+                "file and runs whose problem description changes after the store was created, killed at every point; runs whose store is "
+                "attached before / after the algorithm object is built, exchanged for another file before the run or between two batches "
+                "of one algorithm object, killed at every point of both batches, both files read back; a case is non-trivial "
                 "when the writer was killed; distinct = distinct (scenario, crash point, number of reported events, row ids found)")
 
 
